@@ -158,7 +158,7 @@ def leaves(sp, owner=None, w=1.0, out=None):
 
 def units(sp, out=None):
     """unit components in state order, as harness/spaceinterp.cpp's forUnits: wrappers and plain compounds
-    (incl. SE2/SE3) are descended into; (kind, number of leaves() entries)"""
+    (incl. SE2/SE3) are descended into; (kind, number of leaves() entries, the unit's own space)"""
     out = [] if out is None else out
     k = sp[0]
     if k == "cmp":
@@ -167,14 +167,45 @@ def units(sp, out=None):
     elif k == "wrap":
         units(sp[1], out)
     elif k == "se2":
-        out += [("rv", 1), ("so2", 1)]
+        out += [("rv", 1, ("rv", sp[1], sp[2])), ("so2", 1, ("so2",))]
     elif k == "se3":
-        out += [("rv", 1), ("so3", 1)]
+        out += [("rv", 1, ("rv", sp[1], sp[2])), ("so3", 1, ("so3",))]
     elif k in SPECIAL:
-        out.append((k, 2))
+        out.append((k, 2, sp))
     else:
-        out.append((k, 1))
+        out.append((k, 1, sp))
     return out
+
+
+def ext_of(sp):
+    """getMaximumExtent re-computed from the space description (the slack of the oracle does not take the
+    implementation's word for it; C06 compares the extents themselves)"""
+    k = sp[0]
+    if k == "rv":
+        return math.sqrt(sum((h - l) * (h - l) for l, h in zip(sp[1], sp[2])))
+    if k == "so2":
+        return PI
+    if k == "so3":
+        return 0.5 * PI
+    if k == "time":
+        return 1.0 if sp[1] is None else sp[1][1] - sp[1][0]
+    if k == "disc":
+        return float(sp[2] - sp[1])
+    if k == "cmp":
+        return sum(w * ext_of(s_) for w, s_ in sp[1] if w >= EPS_D)
+    if k == "se2":
+        return ext_of(("rv", sp[1], sp[2])) + 0.5 * PI
+    if k == "se3":
+        return ext_of(("rv", sp[1], sp[2])) + 0.5 * PI
+    if k == "torus":
+        return 2 * PI
+    if k == "mobius":
+        return PI + 2 * sp[1]
+    if k == "klein":
+        return 2 * PI
+    if k == "sphere":
+        return PI * sp[1]
+    return ext_of(sp[1])
 
 
 def kinds(sp, acc=None):
@@ -308,12 +339,12 @@ def leaf_pair(r, lf, mode, counts):
     """(from values, to values) of one leaf, both in bounds."""
     k = lf["kind"]
     if k == "so2":
-        cls = "rand" if mode == "rand" else ("coincident" if mode == "coincident" else r.choice(SO2_ADV))
+        cls = "rand" if mode == "rand" else ("coincident" if mode in ("coincident", "wall") else r.choice(SO2_ADV))
         counts["pair:so2:" + cls] = counts.get("pair:so2:" + cls, 0) + 1
         a, b = so2_pair(r, cls)
         return [a], [b]
     if k == "so3":
-        cls = "rand" if mode == "rand" else ("coincident" if mode == "coincident" else r.choice(SO3_ADV))
+        cls = "rand" if mode in ("rand", "wall") else ("coincident" if mode == "coincident" else r.choice(SO3_ADV))
         counts["pair:so3:" + cls] = counts.get("pair:so3:" + cls, 0) + 1
         return so3_pair(r, cls)
     if k == "disc":
@@ -326,6 +357,20 @@ def leaf_pair(r, lf, mode, counts):
         b = a if mode == "coincident" else r.uniform(-1e3, 1e3)
         return [a], [b]
     lo, hi = lf["lo"], lf["hi"]
+    if mode == "wall":
+        # motion along a wall of the box / start in a corner: some coordinates EQUAL in from and to, sitting
+        # exactly on (or an ulp inside) a bound; the others free
+        a, b = [], []
+        for i in range(lf["n"]):
+            if r.chance(2, 3):
+                v = r.choice([lo[i], hi[i], lo[i], hi[i], up(lo[i]) if lo[i] < hi[i] else lo[i], dn(hi[i]) if lo[i] < hi[i] else hi[i]])
+                a.append(v)
+                b.append(v)
+                counts["pair:rv:wall-coordinate"] = counts.get("pair:rv:wall-coordinate", 0) + 1
+            else:
+                a.append(scalar_in(r, lo[i], hi[i], False))
+                b.append(scalar_in(r, lo[i], hi[i], False))
+        return a, b
     a = [scalar_in(r, lo[i], hi[i], mode == "adv") for i in range(lf["n"])]
     if mode == "coincident":
         return a, list(a)
@@ -350,10 +395,14 @@ def special_seam_fix(r, sp_leaves, a, b, counts):
 
 
 T_FIXED = [0.0, 1.0, 0.5, 0.75, EPS_D, 5e-324, dn(1.0)]
+# non-dyadic parameters (what DiscreteMotionValidator's j/nd produces): 1-t and the products are inexact
+T_NONDYADIC = [0.06, 0.07, 0.08, 0.19, 1.0 / 3.0, 0.1, 0.3, 0.57, 0.7, 0.93, 2.0 / 3.0, 0.01, 0.99]
 
 
 def t_values(r, sp_leaves, a, b, n_rand):
     ts = list(T_FIXED) + [r.unit() for _ in range(n_rand)]
+    k = r.below(len(T_NONDYADIC))
+    ts += [T_NONDYADIC[k], T_NONDYADIC[(k + 3) % len(T_NONDYADIC)], T_NONDYADIC[(k + 7) % len(T_NONDYADIC)], r.below(101) / 100.0]
     # the seam family {from + |diff'| * t = pi}: the t at which the long SO(2) branch lands on +-pi
     for lf, x, y in zip(sp_leaves, a, b):
         if lf["kind"] == "so2":
@@ -393,8 +442,14 @@ def rv_space(r, n=None):
     n = n or r.range(1, 4)
     lo, hi = [], []
     for _ in range(n):
-        c = r.below(5)
-        if c == 0:
+        c = r.below(7)
+        if c == 5:
+            m = r.choice([5.0, 1000.0, 1e6, 4.0, 37.5])
+            l, h = -m, m
+        elif c == 6:
+            l = r.choice([4.0, 5.0, 100.0, 1e6])
+            h = l + r.choice([1.0, 3.0, 1000.0])
+        elif c == 0:
             l, h = -1.0, 1.0
         elif c == 1:
             l, h = 0.0, r.uniform(0.1, 10.0)
@@ -477,6 +532,13 @@ def shipped_spaces():
         ("cmp", [(1.0, ("so2",)), (2.0, ("so2",))]),
         ("cmp", [(1.0, ("rv", [0.0], [1.0])), (0.5, ("disc", 0, 4)), (1.0, ("so2",))]),
         ("cmp", []),
+        # boxes whose walls have large magnitude (ulp(bound) > DBL_EPSILON: satisfiesBounds' slack no longer hides an ulp)
+        ("rv", [-5.0, -5.0], [5.0, 5.0]),
+        ("rv", [-1000.0, -1000.0], [1000.0, 1000.0]),
+        ("rv", [-1e6, 4.0, -37.5], [1e6, 7.0, 37.5]),
+        ("se2", [-1000.0, -5.0], [1000.0, 5.0]),
+        ("se3", [-5.0, -1000.0, 4.0], [5.0, 1000.0, 1e6]),
+        ("time", (5.0, 1000.0)),
         # zero / vanishing weights at every nesting level, over every plain leaf kind
         ("cmp", [(0.0, ("so2",)), (1.0, ("rv", [-1.0], [1.0]))]),
         ("cmp", [(1.0, ("rv", [0.0, -2.0], [1.0, 2.0])), (0.0, ("so3",)), (0.0, ("disc", -2, 5)), (0.0, ("time", (0.0, 4.0))),
@@ -509,7 +571,7 @@ def gen_scripts(ck, tier):
             counts["space-depth:%d" % depth(sp)] = counts.get("space-depth:%d" % depth(sp), 0) + 1
             np_ = n_pairs if tag == "shipped" else max(3, n_pairs // 2)
             for p in range(np_):
-                mode = ["adv", "rand", "adv", "adv", "rand", "coincident"][p % 6]
+                mode = ["adv", "rand", "wall", "adv", "rand", "coincident", "adv", "wall"][p % 8]
                 counts["pair-mode:" + mode] = counts.get("pair-mode:" + mode, 0) + 1
                 lines += gen_pair_lines(r, sp, mode, counts, n_rand_t, n_rep if is_continuous(sp) else 1)
         scripts.append(("gen%d" % (c // chunk), lines, counts))
@@ -634,7 +696,7 @@ def oracle_line(sp, line, out):
     op, lv, a, b, par = parse_op(sp, line)
     f = fields(out)
     fails = []
-    ext = bf(f["ext"][0])
+    ext = ext_of(sp)
     slack = EPS_F * max(1.0, ext if math.isfinite(ext) else 1.0)
     has3 = [lf for lf in lv if lf["kind"] == "so3"]
     w3 = sum(abs(lf["w"]) for lf in has3)
@@ -646,21 +708,33 @@ def oracle_line(sp, line, out):
                 return lf["owner"], i
         return "unknown", None
 
-    def bounds_record(rt, what, frm):
-        """frm = leaf values of the `from` state of the interpolate call that produced rt"""
+    def bounds_record(rt, what, frm, tcall):
+        """frm = leaf values of the `from` state and tcall the parameter of the interpolate call that produced rt"""
         own, i = attribute(rt, lambda lf, v, i: leaf_in_bounds(lf, v))
         cls = "out of bounds"
         if i is not None:
             v = vals(lv[i], split_state(lv, rt)[i])
             if lv[i]["kind"] == "so2":
                 cls = so2_class(frm[i][0], b[i][0], v[0])
+                if cls == "short-branch result == +pi" and frm[i][0] + (b[i][0] - frm[i][0]) * tcall != PI:
+                    cls = "short-branch result == +pi, but the coded from + diff * t does not round to +pi"
                 if lv[i]["owner"] == "klein" and i > 0 and abs(b[i - 1][0] - frm[i - 1][0]) > 0.5 * PI:
                     # Klein's own copy of the SO(2) code (seam branch); its cylinder branch is the SO(2) clause
                     cls = "seam-branch v == +pi" if v[0] == PI else "seam-branch v outside [-pi, pi]"
                     if v[0] == PI and (0 < frm[i][0] < 2.0 ** -51 or 0 < b[i][0] < 2.0 ** -51):
                         cls = "seam-branch v == +pi: mirror(v) = pi - v rounds to +pi for 0 < v < ulp(pi)/2 (rounding)"
-            if lv[i]["kind"] in ("rv", "time") and lv[i]["lo"] is not None and ulp_out(lv[i], v) <= 4.0:
-                cls = "rounding: <= 4 ulp(max |bound|) outside the box (satisfiesBounds has only an absolute DBL_EPSILON slack)"
+            if lv[i]["kind"] in ("rv", "time") and lv[i]["lo"] is not None and lv[i]["owner"] in ("rv", "time", "sphere") \
+                    and ulp_out(lv[i], v) <= 4.0:
+                # F60 is the rounding of the AS-CODED formula only: the value must be bit-identical to what
+                # from + (to - from) * t gives in IEEE double (python floats); any other formula that leaves
+                # the box — e.g. (1-t)*from + t*to, which moves a coordinate that is equal in from and to — alarms
+                coded = [x + (y - x) * tcall for x, y in zip(frm[i], b[i])]
+                if coded == v:
+                    cls = "rounding: <= 4 ulp(max |bound|) outside the box (satisfiesBounds has only an absolute DBL_EPSILON slack)"
+                else:
+                    j = [k for k, (c, w) in enumerate(zip(coded, v)) if c != w][0]
+                    cls = "out of the box, and not the value the coded from + (to - from) * t gives" + (
+                        " (coordinate equal in from and to)" if frm[i][j] == b[i][j] else "")
         for lf, x in zip(lv, split_state(lv, rt)):
             if has_sentinel(lf, vals(lf, x)):
                 own, cls = lf["owner"], "component of the output never written (the harness's sentinel is still there)"
@@ -688,18 +762,31 @@ def oracle_line(sp, line, out):
         un = units(sp)
         csb = f.get("csb", [])
         if f["sb"] != ["1"] or "0" in csb:
-            rec = bounds_record(r, "interpolate(from,to,t) at t=%r does not satisfy the space's bounds" % t, a)
+            rec = bounds_record(r, "interpolate(from,to,t) at t=%r does not satisfy the space's bounds" % t, a, t)
             if rec["culprit"] == "unknown" and "0" in csb:
                 rec["culprit"] = un[csb.index("0")][0]
             fails.append(rec)
+        # a coordinate that is equal in from and to stays exactly there for every t: a theorem of the coded
+        # formulas (R^n/time/SO2 short branch: a + (a - a) * t = a + 0 = a in IEEE arithmetic for finite t;
+        # discrete: floor(a + 0 + 0.5) = a; Props/C07.lean rv_interpolate_fixed_coordinate) — "coincident
+        # states", motions along a wall of the box
+        for li, lf in enumerate(lv):
+            if lf["kind"] in ("rv", "time", "so2", "disc") and lf["owner"] in ("rv", "time", "so2", "disc", "torus", "sphere"):
+                rv_ = vals(lf, split_state(lv, r)[li])
+                for j, (x, y, z) in enumerate(zip(a[li], b[li], rv_)):
+                    if x == y and z != x:
+                        fails.append({"clause": "fixed-coordinate", "culprit": lf["owner"],
+                                      "class": "coordinate equal in from and to moved" + (" off a bound" if lf["lo"] is not None and x in (lf["lo"][j], lf["hi"][j]) else ""),
+                                      "what": "from[i] == to[i] == %r but interpolate(from,to,%r)[i] = %r" % (x, t, z)})
+                        break
         dfr, dft, drt = f["dfr"][0], f["dft"][0], f["drt"][0]
         # end points, judged per unit component with the component's OWN equalStates / distance (a compound's
         # weighted distance cannot see a component whose weight is 0 or tiny); a component that is itself out
         # of bounds is already reported above
-        for ui, (uk, _n) in enumerate(un):
+        for ui, (uk, _n, usp) in enumerate(un):
             if ui >= len(csb) or csb[ui] != "1":
                 continue
-            cslack = EPS_F * max(1.0, bf(f["cext"][ui]) if math.isfinite(bf(f["cext"][ui])) else 1.0)
+            cslack = EPS_F * max(1.0, ext_of(usp))
             for tv, flag, dk, clause, name in ((0.0, "cef", "cdfr", "endpoint0", "from"), (1.0, "cet", "cdrt", "endpoint1", "to")):
                 if t == tv and f[flag][ui] != "1" and not (f[dk][ui] != "-" and bf(f[dk][ui]) <= cslack):
                     fails.append({"clause": clause, "culprit": uk, "class": "t=%d" % tv,
@@ -728,7 +815,8 @@ def oracle_line(sp, line, out):
         for key, flag in (("s3", "sbs3"), ("r", "sbr"), ("direct", "sbd")):
             if f[flag] != ["1"]:
                 frm = [vals(lf, x) for lf, x in zip(lv, split_state(lv, f["s3"]))] if key == "r" else a
-                fails.append(bounds_record(f[key], "%s of the re-parameterisation sequence (s=%r,u=%r) does not satisfy the bounds" % (key, s, u), frm))
+                tcall = {"s3": s, "r": u, "direct": s + (1.0 - s) * u}[key]
+                fails.append(bounds_record(f[key], "%s of the re-parameterisation sequence (s=%r,u=%r) does not satisfy the bounds" % (key, s, u), frm, tcall))
         if f["ra"] != f["r"]:
             fails.append({"clause": "alias", "culprit": sp[0], "class": "output==from (continued interpolation)",
                           "what": "interpolate(s3,to,u,s3) differs from the run with a distinct output"})
@@ -737,10 +825,9 @@ def oracle_line(sp, line, out):
             d = bf(f["d"][0])
             un = units(sp)
             bad_units = []
-            for ui, (uk, _n) in enumerate(un):
+            for ui, (uk, _n, usp) in enumerate(un):
                 cd = f["cd"][ui]
-                ce = bf(f["cext"][ui])
-                if cd != "-" and not bf(cd) <= EPS_F * max(1.0, ce if math.isfinite(ce) else 1.0):
+                if cd != "-" and not bf(cd) <= EPS_F * max(1.0, ext_of(usp)):
                     bad_units.append((uk, bf(cd)))
             if bad_units or not d <= slack:
                 owners = sorted(set(k for k, _ in bad_units))
@@ -894,7 +981,7 @@ def run(ck):
     ck.trusted += ["harness/spaceinterp.cpp + harness/common/spaces.h (protocol <-> real state spaces; no hooks in /repo)",
                    "the aliasing clause is tied by running every interpolate with the output distinct, == from and == to "
                    "(bit comparison) and by the read/write-order obligation over lean/OmplModel/Generated/RwSets.lean when present",
-                   "python oracle in checks/c07.py (slack = float epsilon * max(1, getMaximumExtent()), as StateSpace::sanityChecks)"]
+                   "python oracle in checks/c07.py (slack = float epsilon * max(1, maximum extent), as StateSpace::sanityChecks; the extent is re-computed from the space description, not taken from the implementation)"]
     ck.assumptions += ["input states satisfy the space's own satisfiesBounds (SO(3): unit quaternions within 1e-9); t,s,u in [0,1]",
                        "theorems are over the reals: IEEE rounding is executed (bit-exact correspondence) but not verified",
                        "re-parameterisation is demanded for spaces without a discrete component; proportional distance for R^n, SO(2), "
